@@ -306,10 +306,18 @@ enum VOp {
     Start(u64),
     Cur(i64),
     End(i64),
+    /// the provided methods of Read / Seek, which an implementation may override
+    ReadToEnd,
+    ReadToString,
+    ReadExact(usize),
+    ReadVectored(usize, usize),
+    Rewind,
+    StreamPosition,
 }
 
 fn view_ops(len: i64) -> Vec<VOp> {
     let mut v = vec![VOp::Read(0), VOp::Read(1), VOp::Read(3), VOp::Read(100)];
+    v.extend([VOp::ReadToEnd, VOp::ReadToString, VOp::ReadExact(2), VOp::ReadVectored(1, 2), VOp::Rewind, VOp::StreamPosition]);
     let mut ks = std::collections::BTreeSet::new();
     for k in [0, 1, -1, len - 1, len, len + 3, 100, -100, -len, -len - 1] {
         ks.insert(k);
@@ -349,12 +357,83 @@ fn run_view_history(path: &std::path::Path, content: &[u8], a: u64, b: u64, ops:
                 }
                 p += got as i64;
             }
+            VOp::ReadToEnd | VOp::ReadToString => {
+                let avail = (len - p).max(0) as usize;
+                let want = &win[(p as usize).min(win.len())..];
+                let got: Vec<u8> = if *op == VOp::ReadToEnd {
+                    let mut buf = vec![];
+                    fv.read_to_end(&mut buf).map_err(|e| ("view_read_error".to_string(), ctx(format!("read_to_end: {}", e))))?;
+                    buf
+                } else {
+                    let mut st = String::new();
+                    fv.read_to_string(&mut st).map_err(|e| ("view_read_error".to_string(), ctx(format!("read_to_string: {}", e))))?;
+                    st.into_bytes()
+                };
+                if got != want {
+                    return Err(("view_read_wrong_bytes".into(), ctx(format!("bulk read at {} returned {:?}, the window holds {:?}", p, got, want))));
+                }
+                p += avail as i64;
+            }
+            VOp::ReadExact(n) => {
+                let avail = (len - p).max(0) as usize;
+                let mut buf = vec![0u8; *n];
+                match fv.read_exact(&mut buf) {
+                    Ok(()) => {
+                        if avail < *n || buf[..] != win[p as usize..p as usize + n] {
+                            return Err(("view_read_wrong_bytes".into(), ctx(format!("read_exact({}) at {} of {} returned {:?}", n, p, len, buf))));
+                        }
+                        p += *n as i64;
+                    }
+                    Err(_) => {
+                        if avail >= *n {
+                            return Err(("view_premature_eof".into(), ctx(format!("read_exact({}) failed at position {} of {}", n, p, len))));
+                        }
+                        // a failed read_exact leaves the position unspecified: resynchronise
+                        let np = fv.seek(SeekFrom::Current(0)).map_err(|e| ("view_unusable_after_failed_seek".to_string(), ctx(format!("{}", e))))?;
+                        if np as i64 > len {
+                            return Err(("view_seek_outside_window".into(), ctx(format!("position {} after failed read_exact", np))));
+                        }
+                        p = np as i64;
+                    }
+                }
+            }
+            VOp::ReadVectored(n1, n2) => {
+                let avail = (len - p).max(0) as usize;
+                let mut b1 = vec![0u8; *n1];
+                let mut b2 = vec![0u8; *n2];
+                let got = {
+                    let mut io = [std::io::IoSliceMut::new(&mut b1), std::io::IoSliceMut::new(&mut b2)];
+                    fv.read_vectored(&mut io).map_err(|e| ("view_read_error".to_string(), ctx(format!("read_vectored: {}", e))))?
+                };
+                let mut joined = b1.clone();
+                joined.extend_from_slice(&b2);
+                if got > avail.min(n1 + n2) {
+                    return Err(("view_reads_outside_window".into(), ctx(format!("read_vectored returned {} bytes at position {} of {}", got, p, len))));
+                }
+                if joined[..got] != win[p as usize..p as usize + got] {
+                    return Err(("view_read_wrong_bytes".into(), ctx(format!("read_vectored at {} returned {:?}", p, &joined[..got]))));
+                }
+                if got == 0 && avail > 0 {
+                    return Err(("view_premature_eof".into(), ctx(format!("read_vectored returned 0 at position {} of {}", p, len))));
+                }
+                p += got as i64;
+            }
+            VOp::Rewind => {
+                fv.rewind().map_err(|e| ("view_seek_error_in_range".to_string(), ctx(format!("rewind: {}", e))))?;
+                p = 0;
+            }
+            VOp::StreamPosition => {
+                let np = fv.stream_position().map_err(|e| ("view_seek_error_in_range".to_string(), ctx(format!("stream_position: {}", e))))?;
+                if np as i64 != p {
+                    return Err(("view_seek_wrong_position".into(), ctx(format!("stream_position reported {}, the cursor is at {}", np, p))));
+                }
+            }
             seek => {
                 let (req, target) = match seek {
                     VOp::Start(k) => (SeekFrom::Start(*k), *k as i64),
                     VOp::Cur(d) => (SeekFrom::Current(*d), p + d),
                     VOp::End(d) => (SeekFrom::End(*d), len + d),
-                    VOp::Read(_) => unreachable!(),
+                    _ => unreachable!(),
                 };
                 let in_range = target >= 0 && target <= len;
                 match fv.seek(req) {
@@ -479,6 +558,20 @@ fn run_shapes(max_runs: usize, max_len: usize) -> Vec<Vec<(usize, usize)>> {
     out
 }
 
+/// grouped files whose runs are NOT in name order (legal when only starts must be sorted): the
+/// index must list the runs in file order
+fn unsorted_grouped_shapes() -> Vec<Vec<(usize, usize)>> {
+    let mut v = vec![];
+    for pat in [vec![1usize, 0], vec![0, 2, 1], vec![3, 2, 1, 0], vec![2, 0, 3, 1], vec![0, 1, 3, 2], vec![1, 0, 2]] {
+        for l in 1..=3usize {
+            for l2 in 1..=2usize {
+                v.push(pat.iter().enumerate().map(|(i, c)| (*c, if i % 2 == 0 { l } else { l2 })).collect());
+            }
+        }
+    }
+    v
+}
+
 fn nongrouped_shapes() -> Vec<Vec<(usize, usize)>> {
     let mut v = vec![];
     for pat in [vec![0, 1, 0], vec![0, 1, 2, 0], vec![0, 1, 0, 1], vec![0, 1, 2, 1], vec![0, 1, 2, 3, 0]] {
@@ -499,7 +592,7 @@ impl Check for C18 {
     fn cases(&self, tier: Tier) -> Box<dyn Iterator<Item = C18Case> + '_> {
         let quick = tier == Tier::Quick;
         let mut v = vec![];
-        let shapes: Vec<Vec<(usize, usize)>> = run_shapes(4, if quick { 3 } else { 4 }).into_iter().chain(nongrouped_shapes().into_iter()).collect();
+        let shapes: Vec<Vec<(usize, usize)>> = run_shapes(4, if quick { 3 } else { 4 }).into_iter().chain(nongrouped_shapes().into_iter()).chain(unsorted_grouped_shapes().into_iter()).collect();
         for runs in shapes {
             let nlines: usize = runs.iter().map(|r| r.1).sum();
             let mut longs: Vec<Option<(usize, usize)>> = vec![None];
@@ -550,6 +643,7 @@ impl Check for C18 {
         json!({
             "run_shapes": run_shapes(4, if q {3} else {4}).len(), "max_runs": 4, "max_run_length": if q {3} else {4},
             "non_grouped_shapes": nongrouped_shapes().len(),
+            "grouped_shapes_with_runs_not_in_name_order": unsorted_grouped_shapes().len(),
             "line_patterns": "uniform; one line longer by x3 / x10 / x40 / x800 (9.6 KB) / x1500 (18 KB) at every position",
             "final_newline": [true, false], "formats": ["bedGraph", "bed"],
             "chunk_counts": "1..lines+2 for every file",
@@ -585,6 +679,9 @@ pub enum C19Case {
     /// the bedtobigbed tool reading the BED from standard input (spelling 0..3 of the input
     /// argument), with --autosql (schema idx) or without
     ToolStdin { idx: Option<usize>, spelling: usize, extra: usize },
+    /// schema generated from a first line whose `extra` columns are `width` bytes wide, BED from a
+    /// file (stdin None) or from standard input
+    ToolWide { stdin: Option<usize>, extra: usize, width: usize },
     /// the Python binding: write(..., autosql=) then sql(); sql() on an encoder-written file
     Py { idx: Option<usize>, extra: usize },
 }
@@ -593,7 +690,7 @@ const STDIN_SPELLINGS: [&str; 3] = ["-", "stdin", "/dev/stdin"];
 
 pub struct C19;
 
-const ALPHA: [&str; 9] = ["a", " ", ";", "(", ")", "[", "]", ",", "\""];
+const ALPHA: [&str; 10] = ["a", " ", ";", "(", ")", "[", "]", ",", "\"", "\u{e9}"];
 const PREFIXES: [&str; 6] = ["", "table t \"c\" (", "table t \"c\" ( enum(", "table t \"c\" ( set(", "table t \"c\" ( int x", "table t \"c\" ( int[ "];
 const SUFFIXES: [&str; 3] = ["", " ) ", "; \"c\" )"];
 
@@ -607,6 +704,9 @@ fn supplied_schemas() -> Vec<(String, usize)> {
         ("simple point \"a helper type\" ( int x; \"x\" int y; \"y\" )\ntable main \"rows\" ( string chrom; \"c\" uint chromStart; \"s\" uint chromEnd; \"e\" string name; \"n\" uint score; \"v\" )".to_string(), 5),
         ("object big \"seven\" ( int a; \"\" int b; \"\" int c; \"\" int d; \"\" int e; \"\" int f; \"\" int g; \"\" )\ntable small \"rows\" ( string chrom; \"c\" uint chromStart; \"s\" uint chromEnd; \"e\" string name; \"n\" )".to_string(), 4),
         ("table idx \"indexes\" ( string chrom primary; \"c\" uint chromStart index; \"s\" uint chromEnd unique; \"e\" string name index[12]; \"n\" uint id auto; \"i\" )".to_string(), 5),
+        // non-ASCII text inside comments (units, accented names, CJK)
+        ("table unit\n\"Messwerte in \u{b5}m und \u{b0}C\"\n(\nstring chrom; \"Chromosom \u{2013} Name\"\nuint chromStart; \"d\u{e9}but\"\nuint chromEnd; \"\u{7d42}\u{4e86}\"\nstring name; \"\u{3b1}\u{3b2}\u{3b3}\"\nfloat score; \"\u{b1}1\"\nchar[1] strand; \"+/\u{2212}\"\n)\n".to_string(), 6),
+        ("table t \"\u{e9}\" ( string chrom; \"\u{e9}\" uint chromStart; \"x\u{e9}\" uint chromEnd; \"\u{e9}x\" )".to_string(), 3),
         // schemas longer than the 8 KiB buffers between the file and the reader / writer (long
         // comments are ordinary in published schemas): total lengths 8191, 8192, 8193, 16385, 70001
         crate::wfam::long_schema(8191),
@@ -811,6 +911,16 @@ impl Check for C19 {
                 v.push(C19Case::ToolStdin { idx: None, spelling, extra });
             }
         }
+        // first lines of 8 190 .. 20 000 bytes
+        for (extra, width) in [(9usize, 1000usize), (20, 1000), (40, 300), (8, 1023), (1, 8200), (2, 4093)] {
+            v.push(C19Case::ToolWide { stdin: None, extra, width });
+            for spelling in 0..STDIN_SPELLINGS.len() {
+                if quick && spelling != extra % 3 {
+                    continue;
+                }
+                v.push(C19Case::ToolWide { stdin: Some(spelling), extra, width });
+            }
+        }
         let maxlen = if quick { 5 } else { 7 };
         for len in 0..=maxlen {
             if len == 0 {
@@ -883,6 +993,7 @@ impl Check for C19 {
                 });
                 crate::pyfam::c19_py(schema, *extra, out)
             }
+            C19Case::ToolWide { stdin, extra, width } => crate::clifam::c19_tool_wide(*extra, *width, None, 2, stdin.map(|i| STDIN_SPELLINGS[i]), out),
             C19Case::ToolStdin { idx, spelling, extra } => {
                 let supplied = idx.map(|i| supplied_schemas()[i].clone());
                 crate::clifam::c19_tool_from(*extra, supplied, 2, Some(STDIN_SPELLINGS[*spelling]), out)
